@@ -13,14 +13,14 @@ pub assume_specification [char::is_ascii_alphabetic](c: &char) -> (b: bool);
 pub assume_specification [char::is_ascii_digit](c: &char) -> (b: bool);
 pub assume_specification [char::is_ascii_hexdigit](c: &char) -> (b: bool);
 pub assume_specification<T: PartialEq> [<[T]>::contains](s: &[T], x: &T) -> (b: bool);
+// a Rust allocation (hence a slice) occupies at most isize::MAX bytes and a char is 4 bytes wide (lex_hostname counts up to len + 1)
+#[verifier::external_body]
+pub broadcast proof fn axiom_char_slice_bytes(s: &[char])
+    ensures #[trigger] s@.len() * 2 <= usize::MAX {}
 '''
 
 ASSUMED = '''
 // ---- contracts ASSUMED for functions written with iterator adapters / slice patterns ----
-#[verifier::external_body]
-pub fn lex_hostname(source: &[char]) -> (r: Option<usize>)
-    ensures r matches Some(n) ==> n <= source@.len(),
-{ unimplemented!() }
 #[verifier::external_body]
 fn lex_hostport(source: &[char]) -> (r: Option<usize>)
     ensures r matches Some(n) ==> n <= source@.len(),
@@ -57,6 +57,18 @@ def build(repo):
     U.fn(F, 'lex_ip_schemepart', dict(result='r', props=P, slice_matches=True, ensures=['r matches Some(n) ==> 2 <= n <= source@.len()'],
                                       loops={1: dict(invariant=['cursor <= rest@.len()', 'rest@.len() + 2 == source@.len()'], decreases='rest@.len() - cursor')}))
     U.fn(F, 'lex_url', dict(result='r', props=P, ensures=['found_ok(source@, r)', 'r.is_some() ==> r.unwrap().token is Url']))
+    # lex_hostname: `for label in source.split(|c| *c == '.')` is desugared (R10) into the scanning loop it denotes. The running
+    # count `passed_chars` equals the position reached (one per character, one per label end), so a hit never exceeds the input.
+    U.fn(H, 'lex_hostname', dict(result='r', props=P, ensures=['r matches Some(n) ==> n <= source@.len()'],
+                                 proofs=[dict(at='body_start', kind='broadcast', text='broadcast use axiom_char_slice_bytes;')],
+                                 loops={1: dict(desugar='R10', invariant=['__s <= source@.len()', 'source@.len() * 2 <= usize::MAX'], invariant_except_break=['passed_chars == __s'], ensures=['passed_chars == source@.len() + 1'], decreases='source@.len() - __s'),
+                                        2: dict(iter_name='it', invariant=['__s <= __e <= source@.len()', 'label@ == source@.subrange(__s as int, __e as int)',
+                                                                           'passed_chars == __s + it.index@', 'source@.len() * 2 <= usize::MAX'])}))
+    # lex_email_address: the search for the last '@' (`iter().enumerate().rev().find(..)`) is desugared (R11); whether the local part
+    # is acceptable (validate_local_part: tuple_windows / iterator code) is an arbitrary total bool here
+    U.raw('#[verifier::external_body] fn validate_local_part(local_part: &[char]) -> bool { unimplemented!() }', name='assumed:validate_local_part')
+    U.fn('harper-core/src/lexing/email_address.rs', 'lex_email_address', dict(result='r', props=P, rev_find=dict(elem='char'),
+         ensures=['found_ok(source@, r)', 'r.is_some() ==> r.unwrap().token is EmailAddress && r.unwrap().next_index >= 2']))
     U.fn(H, 'lex_hostname_token', dict(result='r', props=P, ensures=['found_ok(source@, r)', 'r.is_some() ==> r.unwrap().token is Hostname && r.unwrap().next_index >= 2']))
     U.raw(common.FOOTER)
     return U
